@@ -77,7 +77,8 @@ def run_part(ctx, traces, sdkdir=None, max_scenarios=None):
                 phase += 1
                 merged.append(e)
                 merged += [{k: v for k, v in x.items() if k != "phase"} for x in py.get(scn["id"], {}).get(phase, [])]
-    ctx.judge(sd, "RendezvousPy", "Judge_RendezvousPy.cfg", merged,
+    # C12's statement names the Go client; the Python client is growth of the spec: rejections are drift
+    ctx.judge_as_drift("python_client", sd, "RendezvousPy", "Judge_RendezvousPy.cfg", merged,
               scenario_of=lambda head: {"scn": head.get("scn"), "codec": "python keep.py"})
     ctx.extra["python_client_traces"] = len(scns)
     ctx.trusted_base.append("python driver: stub modules for future/pycurl/apiclient/arvados.util (is_hex taken verbatim), "
